@@ -37,6 +37,10 @@ def check(ctx, res, entries):
                 res.fail(Finding("C01.R3", fi.qname, op.node, fi.loc(op.node),
                                  "%s modifies `%s`, a value owned by the traced program: the program's data differs from a run without the agent" % (
                                      kind, norm(op.subject)[:60])))
+            elif kind in ("getattr:__class__", "builtin:isinstance"):
+                res.fail(Finding("C01.R3", fi.qname, op.node, fi.loc(op.node),
+                                 "%s looks up `__class__` on `%s`, a value of the traced program: when that is a property (lazy proxies forward it and "
+                                 "evaluate themselves) the agent runs program code and changes program state; use type()" % (kind, norm(op.subject)[:60])))
             elif kind in ADVANCING:
                 res.fail(Finding("C01.R3", fi.qname, op.node, fi.loc(op.node),
                                  "%s advances `%s`, an iterator/generator of the traced program" % (kind, norm(op.subject)[:60])))
